@@ -109,7 +109,7 @@ def enum_units(tier, seed):
               {"k": "call", "n": "m_s", "args": [L(7)]}, {"k": "call", "n": "m_s", "args": [L(8)]},
               {"k": "if", "c": L(1), "t": [lab("lb_taken"), db(9)], "e": [lab("lb_not_taken"), db(10)]},
               {"k": "include", "f": "part1.s", "b": [lab("lb_inc"), db(11), {"k": "scope", "n": "sc_t", "b": [lab("lb_inc_scope"), db(12)]}]},
-              {"k": "org", "a": org + 0x10000}, lab("sc_m"), db(13)]
+              {"k": "org", "a": org + 0x10000}, lab("sc_m"), db(13), lab("_lb_under"), db(14), {"k": "block", "b": [lab("__lb_two"), db(15)]}, lab("lb_trailing_"), db(16)]
         cases.append({"rom": rom, "files": {}, "defines": {}, "define_forms": [], "sub": rom == "low", "ir": ir})
     return {"units": [{"cases": [c]} for c in cases], "exhaustive": False}
 
